@@ -4,8 +4,8 @@ from nada_dsl.audit import strict
 import re
 
 CASES = {
- "decorated function (keyword span crosses the restriction span)":
-    "from nada_dsl import *\n@dec\ndef nada_main():\n    return []\n",
+ "boolean operation continued in column 0 (the <b> element crosses the operand's type span)":
+    "from nada_dsl import *\n\ndef nada_main():\n    b = (True and\nFalse)\n    return []\n",
  "prohibited multi-line statement containing typed children (restriction span crosses detail spans)":
     "from nada_dsl import *\n\ndef nada_main():\n    a = 1\n    if a:\n        x = 1\n    else:\n        x = 2\n    return []\n",
  "return'a' (the fixed 7-column return detail crosses the following token)":
